@@ -24,7 +24,8 @@ creation paths. Induction over successful creations (each moves start by exactly
 and E1 is evaluated on the stored start) gives the gap-free clock; the induction itself is an argument, not a
 tool result. E7: every path storing a distributor epoch_config validates that value with validate_epoch_config, which
 accepts exactly duration >= 1 day. E8: the epoch manager's Epoch{id} query derives a past epoch's start from the stored
-clock: current.start_time - duration * (current.id - id).
+clock: current.start_time - duration * (current.id - id). E6 also covers the entry points (no admin assertion or sender
+comparison in front of the creating arm). E9: the epoch manager stores its start epoch only when genesis == start time.
 """
 ASSUMPTIONS = [
     "cw_controllers::Hooks::prepare_hooks produces exactly one message per registered hook (trusted library)",
@@ -54,6 +55,8 @@ def loaded(item_suffix, *proj):
 def run(ctx):
     model = ctx.model()
     check_duration_floor(ctx, model)
+    check_entry_permissionless(ctx, model)
+    check_manager_genesis(ctx, model)
     check_query_epoch(ctx, model)
     # ---------------- epoch manager -------------------------------------------------------
     p = "epoch_manager::commands::create_epoch"
@@ -323,3 +326,58 @@ def check_query_epoch(ctx, model):
     got_id = norm_shape(expr_shape(v, f["id"], (b, i), depth=2))
     ctx.ob("C20-E8", "%s|past-epoch-relative-to-the-stored-clock" % p, got_start_n == want_start and got_id == "param(%d)" % idp,
            "Epoch{id}: id := %s, start_time := %s (expected %s)" % (got_id, got_start, want_start), v.where(b))
+
+
+def check_entry_permissionless(ctx, model):
+    """E6 (entry point): on the way from `execute` to the creation handler nothing depends on who calls: the arm of the
+    creating variant (epoch manager CreateEpoch, distributor NewEpoch) is not dominated by an admin assertion or by a
+    comparison involving info.sender placed in `execute` itself."""
+    from ..effects import dispatch_table, arm_blocks
+    for crate, variant in (("epoch_manager", "CreateEpoch"), ("fee_distributor", "NewEpoch")):
+        root = "%s::contract::execute" % crate
+        v = ctx.view(root, "C20-E6")
+        if v is None:
+            continue
+        dt = dispatch_table(v)
+        if not dt or variant not in dt[2]:
+            ctx.missing("C20-E6", "%s arm of %s" % (variant, root))
+            continue
+        sb, _, table = dt[0], dt[1], dt[2]
+        ab = arm_blocks(v, table[variant], sb)
+        arm_entry = table[variant]
+        bad = []
+        # blocks every path to the arm passes through (entry .. dispatch): any admin assertion / sender comparison there gates the arm
+        for b in sorted(v.live_blocks()):
+            if b in ab or arm_entry in v.reachable(0, cut_blocks=[b]):
+                continue    # not a dominator of the arm
+            t = v.blocks[b]["t"]
+            if t["k"] == "call":
+                n = mname(t)
+                if re.search(r"Admin::assert_admin$|Admin::is_admin$|assert_owner|assert_admin$", n):
+                    bad.append("%s at bb%d" % (n.split("::")[-1], b))
+        for b, c, _ in switch_conds(v):
+            if b in ab or arm_entry in v.reachable(0, cut_blocks=[b]):
+                continue
+            if c.kind == "cmp":
+                at = v.at_term(c.site[1]) if c.site[0] == "c" else (c.site[1], c.site[2])
+                for side in (c.a, c.b):
+                    if any(o.kind == "param" and "MessageInfo" in v.local_ty(o.a) for o in v.origins_of_operand(side, at=at)):
+                        bad.append("sender comparison at bb%d" % b)
+        ctx.ob("C20-E6", "%s::%s|entry-permissionless" % (crate, variant), not bad,
+               "caller-dependent gates in front of the %s arm: %s" % (variant, bad or "none"), v.where(arm_entry))
+
+
+def check_manager_genesis(ctx, model):
+    """E9: the epoch manager has no genesis guard in create_epoch; "not before genesis" holds because instantiate stores a
+    start epoch only when genesis_epoch == start_epoch.start_time (both orderings of a mismatch rejected)."""
+    p = "epoch_manager::contract::instantiate"
+    v = ctx.view(p, "C20-E9")
+    if v is None:
+        return
+    gen = lambda os_: bool(os_) and all(o.kind == "param" and tuple(o.proj[-2:]) == ("epoch_config", "genesis_epoch") for o in os_)
+    st = lambda os_: bool(os_) and all(o.kind == "param" and tuple(o.proj[-2:]) == ("start_epoch", "start_time") for o in os_)
+    saves = saves_of(v, "epoch_manager::state::EPOCH")
+    tab, n, blocks = two_var_table(v, gen, st, [b for b, _ in saves])
+    exp = {"<": False, "=": True, ">": False}
+    ctx.ob("C20-E9", "%s|genesis==start" % p, n > 0 and tab == exp,
+           "EPOCH.save reachable for genesis_epoch vs start_epoch.start_time: %s; documented %s (tracked comparisons at %s)" % (tab, exp, blocks), v.where())
